@@ -96,6 +96,14 @@ def gen_case(seed):
             if r.chance(30):
                 path = ['d0'] + path
         spec['path'] = path
+        if r.chance(25):
+            # a variable only this process declares, whose default is set by a
+            # `_schema` override (must reach exactly this process and port)
+            ov = 'o%d' % i
+            spec['vars'] = list(avars) + [ov]
+            spec['override'] = {'acc': {ov: {'_default': r.rint(300, 400)}}}
+            if r.chance(50):
+                spec['writes'].append([ov, [r.rint(1, 99)]])
         procs.append(spec)
     steps = []
     if swarm['steps']:
@@ -192,6 +200,9 @@ def build(case, parallel=(), perm=None):
             params['perm'] = derive(perm, spec['name'])
         if spec.get('condition_path'):
             params['_condition'] = tuple(spec['condition_path'])
+        if spec.get('override'):
+            import copy as _copy
+            params['_schema'] = _copy.deepcopy(spec['override'])
         if spec['name'] in parallel or spec.get('parallel'):
             params['_parallel'] = True
         proc = KProc(params)
@@ -376,6 +387,10 @@ def check(case, run, stats=None):
         all_vars.update(s.get('vars', []))
     for v in all_vars:
         acc.setdefault(v, 0)
+    for s_ in case['procs']:
+        for v, sch in ((s_.get('override') or {}).get('acc') or {}).items():
+            if v not in ((case.get('init') or {}).get('acc') or {}):
+                acc[v] = sch['_default']
     lastT = t0
     last_emit_T = None
     final_T = t0
